@@ -201,6 +201,67 @@ impl TransformAttr {
         result
     }
 
+    /// Does this transform take a box onto a box (translations and scalings only)?
+    pub fn keeps_boxes(&self) -> bool {
+        self.transforms.iter().all(|transform| {
+            matches!(
+                transform,
+                TransformType::Translate(..) | TransformType::Scale(..)
+            )
+        })
+    }
+
+    /// A box which lies within what this transform makes of `bbox` (which is that
+    /// itself for translations and scalings, and for the others a box about the same
+    /// centre with the proportions of `apply()`'s box).
+    pub fn apply_inside(&self, bbox: &BoundingBox) -> BoundingBox {
+        let mut result = *bbox;
+        for transform in self.transforms.iter().rev() {
+            let step = TransformAttr {
+                transforms: vec![transform.clone()],
+            };
+            let hull = step.apply(&result);
+            if matches!(
+                transform,
+                TransformType::Translate(..) | TransformType::Scale(..)
+            ) {
+                result = hull;
+                continue;
+            }
+            // the image of the box is a parallelogram about the image of its centre,
+            // spanned by the images u, v of half its width and half its height
+            let point = |x: f32, y: f32| {
+                let p = step.apply(&BoundingBox::new(x, y, x, y));
+                (p.x1 as f64, p.y1 as f64)
+            };
+            let (cx, cy) = result.center();
+            let (c, px, py) = (point(cx, cy), point(result.x2, cy), point(cx, result.y2));
+            let (u, v) = ((px.0 - c.0, px.1 - c.1), (py.0 - c.0, py.1 - c.1));
+            let det = u.0 * v.1 - u.1 * v.0;
+            let (hx, hy) = (hull.width() as f64 / 2., hull.height() as f64 / 2.);
+            let mut shrink = 0.;
+            if det.abs() > 1e-9 {
+                // (hx, hy) and (hx, -hy) as a u + b v: within for |a|, |b| <= 1
+                let reach = [(hx, hy), (hx, -hy)]
+                    .iter()
+                    .map(|(x, y)| {
+                        let a = (x * v.1 - y * v.0) / det;
+                        let b = (u.0 * y - u.1 * x) / det;
+                        a.abs().max(b.abs())
+                    })
+                    .fold(1., f64::max);
+                shrink = 1. / reach;
+            }
+            result = BoundingBox::new(
+                (c.0 - shrink * hx) as f32,
+                (c.1 - shrink * hy) as f32,
+                (c.0 + shrink * hx) as f32,
+                (c.1 + shrink * hy) as f32,
+            );
+        }
+        result
+    }
+
     /// The box which this transform - translations and scalings only - maps onto `bbox`
     pub fn unapply(&self, bbox: &BoundingBox) -> Option<BoundingBox> {
         let mut result = *bbox;
